@@ -9,9 +9,10 @@ import (
 	"github.com/KevoDB/kevo/pkg/config"
 )
 
-// Engine-level manifestation of the two open SSTable seek findings (C11) combined with the open C10 finding: once the
+// Engine-level manifestation of the two SSTable seek findings (C11; repaired in 9ebed55: the test failed before — 1830 of
+// 2000 keys unreadable — and passes since) combined with the open C10 finding: once the
 // log volume exceeds MaxMemTables x MemTableSize, a reopen moves the logs aside and reads are served by SSTables alone;
-// sstable.Iterator.Seek then misses most keys of every table with more than one restart interval.
+// before the repair sstable.Iterator.Seek then missed most keys of every table with more than one restart interval.
 func TestFindingEngineReadsAfterLogsMovedAside(t *testing.T) {
 	dir := t.TempDir()
 	if _, err := config.LoadConfigFromManifest(dir); errors.Is(err, config.ErrManifestNotFound) {
